@@ -57,6 +57,12 @@ M = [
  ("C17","contentof-renders-twice","helpers/content/of.go",'	return fn(data)','	fn(data)\n	return fn(data)'),
  ("C17","contentof-drops-data","helpers/content/of.go",'	return fn(data)','	return fn(nil)'),
  ("C05","no-wrap","compiler.go",'			return nil, fmt.Errorf("could not call %s function: %w", node.Function, e)','			return nil, fmt.Errorf("could not call %s function: %v", node.Function, e)'),
+ ("C06","table-plus-product","parser/precedences.go",'	token.PLUS:     SUM,','	token.PLUS:     PRODUCT,'),
+ ("C06","order-sum-product","parser/precedences.go",'	SUM             // +\n	PRODUCT         // *','	PRODUCT         // *\n	SUM             // +'),
+ ("C06","right-assoc","parser/parser.go",'	expression.Right = p.parseExpression(precedence)','	expression.Right = p.parseExpression(precedence - 1)'),
+ ("C06","loop-le","parser/parser.go",'precedence < p.peekPrecedence() {','precedence <= p.peekPrecedence() {'),
+ ("C06","prefix-loose","parser/parser.go",'	expression.Right = p.parseExpression(PREFIX)','	expression.Right = p.parseExpression(LOWEST)'),
+ ("C06","and-no-shortcircuit","compiler.go",'	case node.Operator == "&&" && !c.isTruthy(lres):','	case node.Operator == "&&" && lres == nil:'),
 ]
 def main():
     only = sys.argv[1:] 
